@@ -95,7 +95,9 @@ let fmt_res ((st, out), used) = Printf.sprintf "%s %d %s" (status_str st) (int_o
 let () =
   let b = function "1" -> true | _ -> false in
   reg "xzdec" (fun a -> match a with [c; d] ->
-      fmt_res ((if b c then xz_decode_concat else xz_decode_single) big_fuel (bytes_of_hex d)) | _ -> "ERR");
+      fmt_res ((if b c then xz_decode_concat else xz_decode_single) big_fuel false (bytes_of_hex d)) | _ -> "ERR");
+  reg "xzdec_strict" (fun a -> match a with [c; d] ->
+      fmt_res ((if b c then xz_decode_concat else xz_decode_single) big_fuel true (bytes_of_hex d)) | _ -> "ERR");
   reg "alonedec" (fun a -> match a with [p; d] -> fmt_res (alone_decode big_fuel (b p) (bytes_of_hex d)) | _ -> "ERR");
   reg "lzipdec" (fun a -> match a with [c; d] -> fmt_res (lzip_decode big_fuel (b c) (bytes_of_hex d)) | _ -> "ERR");
   reg "autodec" (fun a -> match a with [c; d] -> fmt_res (auto_decode big_fuel (b c) (bytes_of_hex d)) | _ -> "ERR");
